@@ -193,6 +193,17 @@ def check_perm(case):
     return OK(n >= 4, f"len{min(n, 9)}")
 
 
+def check_holeyness(case):
+    """holeyness is a maximum over ALL subsets of positions: longer permutations (where the
+    maximising subsets are large) are checked against the brute-force definition too"""
+    p = tuple(case)
+    got = Perm(p).holeyness()
+    want = S.holeyness(p)
+    if got != want or PS.get_by_index(20).func(Perm(p)) != want:
+        return BAD("holeyness_long", {"perm": list(p), "got": got, "want": want})
+    return OK(len(p) >= 8, f"holeyness_len{len(p)}")
+
+
 def _stat_tables(perms, use_model=False):
     """name -> {perm tuple: value} with oracle values (weak ones: library values)."""
     tables = {}
@@ -347,6 +358,7 @@ def check_prime(case):
 
 CHECKS = {
     "perm": check_perm,
+    "holeyness": check_holeyness,
     "bijection": check_bijection,
     "distribution": check_distribution,
     "equidistribution": check_equidistribution,
@@ -425,6 +437,8 @@ def equi_cases(draw):
 
 
 def shard_generated(acc, shard, nshards, n_perm, n_bij, n_dist, n_equi, n_prime):
+    lengths = st.sampled_from([8, 9, 9, 9, 10, 11, 11])
+    engine.hyp_run(acc, "holeyness", check_holeyness, lengths.flatmap(gen.perm_of).map(list), 2 * n_perm, shard)
     engine.hyp_run(acc, "perm", check_perm, gen.perms(8, 12).map(lambda p: {"p": list(p), "heavy": False}), n_perm, shard)
     engine.hyp_run(acc, "bijection", check_bijection, bijection_cases(), n_bij, shard)
     engine.hyp_run(acc, "distribution", check_distribution, distribution_cases(), n_dist, shard)
